@@ -49,6 +49,8 @@ typedef struct {
 	long     send_bytes_after_fail;
 	uint64_t frag_hash;          /* hash over the (req,ret) sequence          */
 	uint8_t  first_send_after_fail[8];
+	uint8_t  after_fail_type[32];   /* first byte of each send() after an injected failure */
+	int      after_fail_n;
 } vf_thread_t;
 
 static __thread vf_thread_t *T;
@@ -90,6 +92,7 @@ void vf_entropy_seed(uint64_t seed)
 	t->loglen = 0;
 	t->send_after_fail = 0;
 	t->send_bytes_after_fail = 0;
+	t->after_fail_n = 0;
 }
 
 void vf_entropy_real(int on) { vf_t()->mode_real = on; }
@@ -121,6 +124,7 @@ void vf_entropy_mark(void)
 	t->failed = 0;
 	t->send_after_fail = 0;
 	t->send_bytes_after_fail = 0;
+	t->after_fail_n = 0;
 }
 
 long vf_entropy_draws(void)  { return vf_t()->draws; }
@@ -216,6 +220,7 @@ uint64_t vf_io_stats(long *out)
 }
 
 void vf_io_first_send_after_fail(uint8_t out[8]) { memcpy(out, vf_t()->first_send_after_fail, 8); }
+int vf_io_after_fail_types(uint8_t out[32]) { vf_thread_t *t = vf_t(); memcpy(out, t->after_fail_type, 32); return t->after_fail_n; }
 
 static void maybe_yield(vf_thread_t *t)
 {
@@ -250,6 +255,7 @@ ssize_t __wrap_send(int fd, const void *buf, size_t len, int flags)
 			memset(t->first_send_after_fail, 0, 8);
 			memcpy(t->first_send_after_fail, buf, len < 8 ? len : 8);
 		}
+		if (t->after_fail_n < 32 && len > 0) t->after_fail_type[t->after_fail_n++] = ((const uint8_t *)buf)[0];
 		t->send_after_fail++;
 		t->send_bytes_after_fail += (long)len;
 	}
